@@ -1,8 +1,13 @@
+#[cfg(not(sonic_rs_verif))]
+use std::sync::atomic::AtomicPtr;
 use std::{
     fmt::{self, Debug, Display},
     str::from_utf8_unchecked,
-    sync::atomic::{AtomicPtr, Ordering},
+    sync::atomic::Ordering,
 };
+
+#[cfg(sonic_rs_verif)]
+use crate::verif_hooks::ShimAtomicPtr as AtomicPtr;
 
 use faststr::FastStr;
 use ref_cast::RefCast;
